@@ -4,6 +4,7 @@
 From Coq Require Import List NArith Bool Arith QArith.
 Import ListNotations.
 From AnySync Require Import Lib.Dag Model.Dfs Model.Tree Model.LoadIter Proofs.LoadIter Proofs.LoadIterHeads Proofs.DfsTopo.
+From AnySync Require Import Model.LoadIterMid Proofs.LoadIterMid.
 From AnySync Require Import Model.OrderIds Model.OrderIdsQ Proofs.OrderIdsFill Proofs.OrderIds Proofs.OrderIdsQ Proofs.OrderIdsStore.
 Open Scope N_scope.
 
@@ -251,4 +252,95 @@ Proof.
     split; intros e He; cbn [oid_sigma9 In] in He;
       repeat (destruct He as [He|He]; [subst e; cbn; intuition (try discriminate; auto)|]); destruct He.
   - vm_compute. reflexivity.
+Qed.
+
+(* ================================================================ stores while the response is streamed ================================================================
+
+   The response is prepared under the tree lock (load) and streamed after the lock is released: every NextBatch re-reads the
+   storage from its cursor, so changes of a third peer / local changes can be stored between load and any later batch
+   (Model/LoadIterMid.v: [respond_mid sigma0 st]: sigma0 = the store at request time, [st k] = the store found by the k-th
+   NextBatch call; NextBatch's cache-miss guard is [scan_c]).  Hypothesis on the stores, visible below: restricted to the ids
+   cached at request time, each of them is exactly the range cached at request time, i.e. the store only GREW, by changes with
+   other ids, at arbitrary positions of the order (a concurrent branch is ordered into the middle of the range still to be
+   streamed); ids in the request-time range are pairwise different. *)
+
+(* such stores are invisible: the batches and the announced heads are those of the undisturbed response, for every limit *)
+Theorem c09_mid_stores_invisible : forall sigma0 st ourPath theirPath theirHeads maxSize,
+  (forall cs, choose_snapshot ourPath theirPath = Some cs ->
+     NoDup (map se_id (from_id cs sigma0)) /\
+     forall k, filter (cached (map se_id (from_id cs sigma0))) (st k) = from_id cs sigma0) ->
+  respond_mid sigma0 st ourPath theirPath theirHeads maxSize = respond sigma0 ourPath theirPath theirHeads maxSize.
+Proof. exact respond_mid_invisible. Qed.
+Print Assumptions c09_mid_stores_invisible.
+
+(* size bound, exact content and progress while the store grows: the concatenated batches are exactly what the responder held
+   AT REQUEST TIME from the common snapshot on minus the changes marked removed; each batch is non-empty and is below the
+   limit or a single change — a change stored meanwhile never rides along *)
+Theorem c09_mid_exact_bounded_progress : forall sigma0 st ourPath theirPath theirHeads maxSize bs,
+  (forall cs, choose_snapshot ourPath theirPath = Some cs ->
+     NoDup (map se_id (from_id cs sigma0)) /\
+     forall k, filter (cached (map se_id (from_id cs sigma0))) (st k) = from_id cs sigma0) ->
+  respond_mid sigma0 st ourPath theirPath theirHeads maxSize = Some bs ->
+  exists cs, choose_snapshot ourPath theirPath = Some cs
+    /\ concat (map b_changes bs) = nonrem (removed_of sigma0 cs theirHeads) (from_id cs sigma0)
+    /\ Forall (fun b => ((total_size (b_changes b) < maxSize) \/ (length (b_changes b) <= 1)%nat) /\ b_changes b <> []) bs.
+Proof. exact respond_mid_exact. Qed.
+Print Assumptions c09_mid_exact_bounded_progress.
+
+(* everything held at request time that the requester lacks is delivered, whatever is stored meanwhile *)
+Theorem c09_mid_complete : forall sigma0 st ourPath theirPath theirHeads maxSize bs (haveB : N -> Prop),
+  (forall cs, choose_snapshot ourPath theirPath = Some cs ->
+     NoDup (map se_id (from_id cs sigma0)) /\
+     forall k, filter (cached (map se_id (from_id cs sigma0))) (st k) = from_id cs sigma0) ->
+  respond_mid sigma0 st ourPath theirPath theirHeads maxSize = Some bs ->
+  (forall cs c p, choose_snapshot ourPath theirPath = Some cs ->
+     In c (map se_ch (from_id cs sigma0)) -> haveB (cid c) -> In p (cprev c) -> haveB p) ->
+  (forall h, In h theirHeads -> haveB h) ->
+  exists cs, choose_snapshot ourPath theirPath = Some cs /\
+    forall e, In e (from_id cs sigma0) -> ~ haveB (se_id e) -> In e (concat (map b_changes bs)).
+Proof. exact respond_mid_complete. Qed.
+Print Assumptions c09_mid_complete.
+
+(* announced heads while the store grows: a heads_trace of the request-time range *)
+Theorem c09_mid_heads_childless : forall sigma0 st ourPath theirPath theirHeads maxSize bs cs,
+  (forall k, filter (cached (map se_id (from_id cs sigma0))) (st k) = from_id cs sigma0) ->
+  respond_mid sigma0 st ourPath theirPath theirHeads maxSize = Some bs ->
+  choose_snapshot ourPath theirPath = Some cs ->
+  NoDup (map se_id (from_id cs sigma0)) -> lin_ext (from_id cs sigma0) ->
+  (forall e, In e (from_id cs sigma0) -> ~ In (se_id e) (cprev (se_ch e))) ->
+  heads_trace (removed_of sigma0 cs theirHeads) (from_id cs sigma0) [] bs.
+Proof. exact respond_mid_heads_childless. Qed.
+Print Assumptions c09_mid_heads_childless.
+
+(* non-vacuity (the shape of the seeded demo): the responder holds the chain 1 <- 10 <- 11 <- 12 <- 13 <- 50 <- 51 <- 52
+   (100 bytes each); after the request was handled a third peer's change 14 (parent 13, 6000 bytes) is stored, ordered between
+   13 and 50; limit 450.  The hypotheses hold, the model streams [10 11 12 13] [50 51 52] (the root 1 is known to the
+   requester), spec_C09_mid accepts that — and rejects the observation in which 14 rides along in the first batch. *)
+Definition mid_ch (i p : N) := mkChange i [p] 1 false.
+Definition mid_G := mkChange 1 [] 0 true ::
+  [mid_ch 10 1; mid_ch 11 10; mid_ch 12 11; mid_ch 13 12; mid_ch 50 13; mid_ch 51 50; mid_ch 52 51; mid_ch 14 13].
+Definition mid_sigma0 := mkSE (mkChange 1 [] 0 true) 60 ::
+  [mkSE (mid_ch 10 1) 100; mkSE (mid_ch 11 10) 100; mkSE (mid_ch 12 11) 100; mkSE (mid_ch 13 12) 100;
+   mkSE (mid_ch 50 13) 100; mkSE (mid_ch 51 50) 100; mkSE (mid_ch 52 51) 100].
+Definition mid_sigma1 := mkSE (mkChange 1 [] 0 true) 60 ::
+  [mkSE (mid_ch 10 1) 100; mkSE (mid_ch 11 10) 100; mkSE (mid_ch 12 11) 100; mkSE (mid_ch 13 12) 100;
+   mkSE (mid_ch 14 13) 6000;
+   mkSE (mid_ch 50 13) 100; mkSE (mid_ch 51 50) 100; mkSE (mid_ch 52 51) 100].
+
+Example c09_mid_nonvacuous :
+  (forall cs, choose_snapshot [1] [1] = Some cs ->
+     NoDup (map se_id (from_id cs mid_sigma0)) /\
+     forall k : N, filter (cached (map se_id (from_id cs mid_sigma0))) (store_at mid_sigma0 [(0, mid_sigma1)] k) = from_id cs mid_sigma0) /\
+  obs_of_batches (respond_mid mid_sigma0 (store_at mid_sigma0 [(0, mid_sigma1)]) [1] [1] [1] 450)
+    = [([10; 11; 12; 13], [13]); ([50; 51; 52], [52])] /\
+  spec_C09_mid mid_G mid_sigma0 mid_sigma1 [1] [1] [1] [1] 450
+    (obs_of_batches (respond_mid mid_sigma0 (store_at mid_sigma0 [(0, mid_sigma1)]) [1] [1] [1] 450))
+    [1; 10; 11; 12; 13; 50; 51; 52] = true /\
+  spec_C09_mid mid_G mid_sigma0 mid_sigma1 [1] [1] [1] [1] 450
+    [([10; 11; 12; 13; 14], [14]); ([50; 51; 52], [14; 52])] [1; 10; 11; 12; 13; 14; 50; 51; 52] = false.
+Proof.
+  split; [|vm_compute; repeat split].
+  intros cs Hcs. vm_compute in Hcs. inversion Hcs; subst cs. split.
+  - vm_compute. repeat constructor; cbn; intuition discriminate.
+  - intros k. cbn [store_at]. destruct (N.leb 0 k); vm_compute; reflexivity.
 Qed.
